@@ -643,8 +643,17 @@ func (w *Writer) writeAccess(access ir.ExprAccess) error {
 		}
 	}
 
+	// A value base rendered as a bare binary / ternary expression must be
+	// parenthesized before the subscript (matches Rust naga is_scoped=false).
+	needParens := w.needsParensInContext(access.Base)
+	if needParens {
+		w.write("(")
+	}
 	if err := w.writeExpression(access.Base); err != nil {
 		return err
+	}
+	if needParens {
+		w.write(")")
 	}
 	w.write("[")
 	if err := w.writeAccessIndex_restricted(access.Base, access.Index); err != nil {
@@ -976,6 +985,15 @@ func (w *Writer) needsParens(child ir.ExpressionHandle) bool {
 			if _, isInt := w.getIntegerOverload(k.Left); isInt {
 				return false
 			}
+		}
+		return true
+	case ir.ExprSelect:
+		// A scalar-condition select is rendered as a bare ternary "c ? a : b",
+		// which binds looser than every binary operator. Vector-condition
+		// selects are metal::select(...) calls and need no parentheses.
+		condType := w.getExpressionType(k.Condition)
+		if vec, ok := condType.(ir.VectorType); ok && vec.Scalar.Kind == ir.ScalarBool {
+			return false
 		}
 		return true
 	case ir.ExprArrayLength:
